@@ -318,6 +318,13 @@ pub fn run(_ctx: &Ctx) -> Vec<Eng> {
             e.caps.push("built without --cfg rrtk_verif: scratch arrays are not poisoned in this run".to_string());
         }
     }
+    let mut e6 = Eng::new(
+        "c16-aliased-inputs-scratch",
+        "n-ary sum, product and newest-of (arities 2..5) whose input slots hold the SAME getter object (present / absent / erroring) in every slot, and around a different getter, with the scratch arrays poisoned (engine shared with C02): a slot that is counted as filled although its (shared) input delivered nothing reads the poison",
+        "see c02-fixed-arity (aliasing part)",
+    );
+    crate::c02::aliased_inputs(&mut e6);
+    rekey(&mut e6, "scratch-slot");
     let mut e5 = Eng::new(
         "c16-reference-liveness",
         "every Reference variant of the build: all sequences of 4 operations over {clone, to_dyn! (also attempted on the variants the macro does not list: a Reference it hands out counts), read, write, drop} x 3 handle slots on a target with a drop flag, plus the 10 to_dyn! argument forms (engine shared with C17): the target of an Rc/Arc-backed Reference must stay alive exactly as long as a handle derived from it in safe code exists - a handle that survives its target is a dangling Reference obtained without `unsafe`",
@@ -325,5 +332,5 @@ pub fn run(_ctx: &Ctx) -> Vec<Eng> {
     );
     crate::c17::liveness(&mut e5, 4, Budget::secs(120));
     rekey(&mut e5, "dangling");
-    vec![e1, e2, e3, e4, e5]
+    vec![e1, e2, e3, e4, e5, e6]
 }
